@@ -5,7 +5,7 @@ use nom::Err as NomErr;
 use nom::IResult;
 use nom::bytes::complete::take;
 use nom::error::{Error as NomError, ErrorKind};
-use nom::number::complete::{be_i24, be_u24, be_u32, be_u128};
+use nom::number::complete::{be_i24, be_u8, be_u24, be_u32, be_u128};
 use nom_derive::*;
 use serde::Serialize;
 
@@ -288,7 +288,10 @@ impl FieldValue {
                 )
             }
             FieldDataType::ProtocolType => {
-                let (i, protocol) = ProtocolTypes::parse(remaining)?;
+                // Protocol numbers without a ProtocolTypes variant (146..=254) are Unknown, not
+                // a parse failure that silently drops the record and all records after it.
+                let (i, protocol) = ProtocolTypes::parse(remaining)
+                    .or_else(|_| be_u8(remaining).map(|(i, _)| (i, ProtocolTypes::Unknown)))?;
                 (i, FieldValue::ProtocolType(protocol))
             }
             FieldDataType::Float64 => {
